@@ -374,6 +374,7 @@ def run_family(prop: str, tier: str) -> int:
                 s2.real["accept_form"] = v["accept_form"]
             if v.get("path_vars"):
                 s2.real["path_vars"] = True
+                s2.real["deco"] = "dds_function"      # and the alias of the decorator
             byname[s.name] = s2
         items = [(byname[h["shape"]], h["hist"]) for h in hs]
         if vi == 0:
